@@ -64,7 +64,7 @@ def main():
         mp = os.path.join(d, 'meta.json')
         if os.path.exists(mp):
             oldm = json.load(open(mp))
-            for k in ('caught_after_strengthening',):
+            for k in ('caught_after_strengthening', 'verdict_note'):
                 if k in oldm:
                     meta[k] = oldm[k]
             meta['also_detected_by'] = sorted(set(meta['also_detected_by']) | set(oldm.get('also_detected_by', [])))
